@@ -26,9 +26,62 @@ theorem toks_asgP (lr : Atom × Atom) : ptoks (asgP lr) = (SItem.asg (toX lr.1) 
     List.isEmpty_nil, if_true]
   simp
 
+/-! module parameters -/
+
+def mparamP1 (kv : String × String) : List Piece :=
+  NL ++ W4 ++ T "parameter" ++ W1 ++ T kv.1 ++ W1 ++ T "=" ++ W1 ++ valP kv.2
+
+def mparamP (ps : Params) : List Piece :=
+  if ps.isEmpty then [] else T "#" ++ T "(" ++ List.intercalate (T ",") (ps.map mparamP1) ++ NL ++ T ")"
+
+theorem chars_mparamP (ps : Params) : pchars (mparamP ps) = (mparamsText ps).toList := by
+  unfold mparamP mparamsText
+  cases ps with
+  | nil => rfl
+  | cons kv rest =>
+    simp only [List.isEmpty_cons, Bool.false_eq_true, if_false, pchars_append, chars_T, chars_NL, pchars_intercalate,
+      String.toList_append, String.toList_intercalate, List.map_map]
+    have h1 : "#(".toList = "#".toList ++ "(".toList := by decide
+    have h2 : "\n)".toList = "\n".toList ++ ")".toList := by decide
+    rw [h1, h2]
+    have hm : (kv :: rest).map (pchars ∘ mparamP1) = (kv :: rest).map (String.toList ∘ mparamLine) := by
+      apply List.map_congr_left
+      intro x _
+      simp only [Function.comp, mparamP1, mparamLine, pchars_append, chars_NL, chars_W4, chars_W1, chars_T, chars_valP,
+        String.toList_append]
+      have e1 : "\n    parameter ".toList = "\n".toList ++ "    ".toList ++ "parameter".toList ++ " ".toList := by decide
+      have e2 : " = ".toList = " ".toList ++ "=".toList ++ " ".toList := by decide
+      rw [e1, e2]
+      simp [List.append_assoc]
+    rw [hm]
+    simp [List.append_assoc]
+
+theorem mpToks_eq : ∀ (a : Params), a ≠ [] →
+    "parameter" :: mpToks a = List.intercalate [","] (a.map (fun kv => ["parameter", kv.1, "=", kv.2]))
+  | [], h => absurd rfl h
+  | [a], _ => by simp [mpToks, List.intercalate]
+  | a :: b :: t, _ => by
+    have ih := mpToks_eq (b :: t) (by simp)
+    simp only [mpToks, List.intercalate, List.intersperse, List.map_cons, List.flatten_cons] at ih ⊢
+    rw [← ih]; simp
+
+theorem toks_mparamP (ps : Params) : ptoks (mparamP ps) = mparamToks ps := by
+  unfold mparamP mparamToks
+  cases ps with
+  | nil => rfl
+  | cons kv rest =>
+    simp only [List.isEmpty_cons, Bool.false_eq_true, if_false, ptoks_append, toks_T, toks_NL, ptoks_intercalate,
+      List.append_nil, List.map_map]
+    have hm : (kv :: rest).map (ptoks ∘ mparamP1) = (kv :: rest).map (fun kv => ["parameter", kv.1, "=", kv.2]) := by
+      apply List.map_congr_left
+      intro x _
+      simp [mparamP1, ptoks_append, toks_NL, toks_W4, toks_W1, toks_T, toks_valP]
+    rw [hm, ← mpToks_eq (kv :: rest) (by simp)]
+    simp
+
 def modPA (m : WModPA) : List Piece :=
   starP m.base.attrs ++
-    (T "module" ++ W1 ++ N (fixName m.base.name) ++ NL ++ T "(" ++
+    (T "module" ++ W1 ++ N (fixName m.base.name) ++ NL ++ mparamP m.params ++ T "(" ++
       List.intercalate (T ",") (m.base.ports.map (fun p => NL ++ W4 ++ N (fixName p.name))) ++ NL ++ T ")" ++ T ";" ++ NL ++ NL) ++
     ((m.base.ports.map portP).flatten ++ NL) ++
     (((m.base.wires.map wireP).flatten ++ NL) ++ (m.asgs.map asgP).flatten ++ (m.base.insts.map instP).flatten) ++
@@ -36,7 +89,7 @@ def modPA (m : WModPA) : List Piece :=
 
 theorem chars_modPA (m : WModPA) : pchars (modPA m) = (renderModA m).toList := by
   simp only [modPA, renderModA, pchars_append, chars_starP, chars_T, chars_N, chars_W1, chars_NL, pchars_intercalate, pchars_flatten,
-    String.toList_append, String.toList_intercalate, toList_join, List.map_map]
+    String.toList_append, String.toList_intercalate, toList_join, List.map_map, chars_mparamP]
   have h1 : "module ".toList = "module".toList ++ " ".toList := by decide
   have h2 : "\n);\n".toList = "\n".toList ++ ")".toList ++ ";".toList ++ "\n".toList := by decide
   have h3 : "\n\n".toList = "\n".toList ++ "\n".toList := by decide
@@ -59,8 +112,9 @@ theorem chars_modPA (m : WModPA) : pchars (modPA m) = (renderModA m).toList := b
   simp [List.append_assoc, List.flatMap, Function.comp_def]
 
 theorem toks_modPA (m : WModPA) (hd : ∀ p ∈ m.base.ports, p.dir ≠ .undef) : ptoks (modPA m) = tokensOfA m.toA := by
-  simp only [modPA, tokensOfA, modToks, WModPA.toA, WModP.toI, WModA.sitems, ptoks_append, toks_starP, toks_T, toks_N, toks_W1,
-    toks_NL, ptoks_intercalate, ptoks_flatten, List.append_nil, List.map_map, sepNames_eq, List.flatMap_append, List.nil_append]
+  simp only [modPA, tokensOfA, modToksP, WModPA.toA, WModP.toI, WModA.sitems, ptoks_append, toks_starP, toks_T, toks_N, toks_W1,
+    toks_NL, ptoks_intercalate, ptoks_flatten, List.append_nil, List.map_map, sepNames_eq, List.flatMap_append, List.nil_append,
+    toks_mparamP]
   have hm1 : m.base.ports.map (ptoks ∘ fun p => NL ++ W4 ++ N (fixName p.name)) =
       m.base.ports.map ((fun x => [nameT x]) ∘ fun p => p.name) := by
     apply List.map_congr_left
